@@ -170,3 +170,41 @@ Theorem C04_insertion_always_defined :
        kinsert k nodes = Ok kf -> kdeg kf = kdeg k -> exists M : mat, knot_insert k nodes = Ok M.
 Proof. exact knot_insert_succeeds. Qed.
 Print Assumptions C04_insertion_always_defined.
+
+From NurbsV Require Import Spec.BSpline Model.Linalg Model.Quadrature Model.LeastSq Model.CurveLS Proofs.ForcedProofs.
+From NurbsV Require Proofs.UnionProofs.
+(* ---- requests that name an end knot (Proofs/ForcedProofs.v): kinsert raises the inferred degree by the number of copies of the end knots
+   (both ends must be named equally often, otherwise ValueError), and knot_insert on a curve with control points or weights refuses every
+   such request with ValueError - this closes the case the for-all-u theorems exclude by their hypothesis 'degree unchanged'. ---- *)
+Theorem C04_insert_degree_law :
+  forall (k : kv) (ns : list Q) (k' : kv),
+       WF (kvec k) (kdeg k) ->
+       kinsert k ns = Ok k' ->
+       kvec k' = sortq (kvec k ++ ns) /\
+       kdeg k' = (kdeg k + count_q (first_q (kvec k)) ns)%nat /\
+       kdeg k' = (kdeg k + count_q (last_q (kvec k)) ns)%nat.
+Proof. exact kinsert_degree. Qed.
+Print Assumptions C04_insert_degree_law.
+
+Theorem C04_end_knot_request :
+  forall (k : kv) (ns : list Q),
+       WF (kvec k) (kdeg k) ->
+       (exists z : Q, In z ns /\ (z == kumin k \/ z == kumax k)) ->
+       kinsert k ns = Err ValueError \/
+       (exists k' : kv,
+          kinsert k ns = Ok k' /\
+          (kdeg k < kdeg k')%nat /\
+          kdeg k' = (kdeg k + count_q (first_q (kvec k)) ns)%nat /\
+          kdeg k' = (kdeg k + count_q (last_q (kvec k)) ns)%nat).
+Proof. exact kinsert_end_knot. Qed.
+Print Assumptions C04_end_knot_request.
+
+Theorem C04_end_knot_request_refused :
+  forall (c : curve) (ns : list Q),
+       WF (kvec (ckv c)) (kdeg (ckv c)) ->
+       cP c <> None \/ cW c <> None ->
+       kvalid (ckv c) ns = true ->
+       (exists z : Q, In z ns /\ (z == kumin (ckv c) \/ z == kumax (ckv c))) ->
+       c_knot_insert c ns = Err ValueError.
+Proof. exact c_knot_insert_end_knot_refused. Qed.
+Print Assumptions C04_end_knot_request_refused.
